@@ -1142,6 +1142,10 @@ static bool _advance_parsing(binson_parser *parser, uint8_t scan_flags, bbuf *sc
                             return false;
                         }
                     }
+                    else {
+                        /* Back in the enclosing array: stop at its next container. */
+                        state->flags = BINSON_STATE_IN_ARRAY_1;
+                    }
 
                 }
                 else {
